@@ -798,6 +798,11 @@ class SigmaRegularExpression(SigmaType):
         """Escape strings from escaped tuple as well as escape_char itself (can be disabled with
         escape_escape_char) with escape_char. Prepends a (?...) expression with set flags (i, m and
         s) if flag_prefix is set."""
+        for part in self.regexp.iter_parts():  # same check as in SigmaString.convert()
+            if isinstance(part, Placeholder):
+                raise SigmaPlaceholderError(
+                    f"Attempt to convert unhandled placeholder '{part.name}' into query."
+                )
         r = "|".join(
             [  # Generate regular expressions from sequences that should be escaped and the escape char itself
                 re.escape(e)
